@@ -38,6 +38,15 @@ def mk_time(ts, t):
     same time object (view of a longer array, strided view, ufunc result, copy) - the property does
     not care how a time object came about"""
     via = t.get("via", "direct")
+    if via == "uniform":
+        # the same instants held by a UniformTime (the other time class): t0 + i*dt, built from ps time objects
+        p = t["p"]
+        dt = (p[1] - p[0]) if len(p) > 1 else 7
+        a = ts.UniformTime(t0=ts.TimeArray(np.int64(p[0]), time_unit="ps"),
+                           sampling_interval=ts.TimeArray(np.int64(dt), time_unit="ps"),
+                           length=len(p), time_unit=t["u"])
+        assert [int(x) for x in np.asarray(a)] == [int(x) for x in p], "harness: UniformTime construction"
+        return a
     if t["sc"]:
         a = ts.TimeArray(np.int64(t["p"][0]), time_unit="ps")
     elif via == "slice":
@@ -448,6 +457,16 @@ def gen_action(rng):
                 # mostly shape-compatible
                 t["p"] = (t["p"] * n)[:n]
             o = {"kind": "time", "t": t}
+            # the other time class: a UniformTime holding the same kind of instants, on either side
+            for side in (s, t):
+                if not side["sc"] and rng.random() < 0.12:
+                    m = len(side["p"])
+                    f = FACT[side["u"]]
+                    t0 = gen_int_for(rng, 1, LIM // 8)
+                    dt = rng.choice([1, 7, f, 3 * f, rng.randint(1, 10 ** 6)])
+                    if abs(t0) + m * dt < LIM // 4:
+                        side["p"] = [t0 + i * dt for i in range(m)]
+                        side["via"] = "uniform"
         else:
             o = gen_bare(rng, s["u"], n=n if rng.random() < 0.85 else n + 1)
         if rng.random() < 0.5:
@@ -458,6 +477,11 @@ def gen_action(rng):
             t = o["t"]
             m = min(len(t["p"]), n)
             t["p"][:m] = [x + rng.choice([0, 0, 1, -1]) for x in s["p"][:m]]
+            if t.get("via") == "uniform":
+                # the payload was just perturbed: keep the UniformTime form only if it is still a uniform ramp
+                d = [b - a for a, b in zip(t["p"], t["p"][1:])]
+                if len(set(d)) > 1 or (d and d[0] <= 0):
+                    del t["via"]
         return {"act": "cmp", "op": rng.choice(["Lt", "Le", "Gt", "Ge", "Eq"]), "self": s, "o": o}
     if r < 0.95:
         return {"act": "reduce", "r": rng.choice(["RMin", "RMax", "RSum", "RPtp"]),
